@@ -306,6 +306,19 @@ theorem pair_lookup {core : List Int} {τ : RTy} {cl : Int} (h : Good p bs n a c
 
 end lookup
 
+/-- `Lemmas.StackTyping.Typing` without the clause that successors are instruction boundaries (which the soundness proof
+    does not use; `Prog.wf` provides it) -/
+structure TypingW (p : Prog) (bs : List Nat) (a : Assign) : Prop where
+  zero : a.get 0 = some []
+  closed : ∀ pc ∈ bs, ∀ σ, a.get pc = some σ →
+    ∃ o succs, opAt p pc = some o ∧ flow p pc o σ = some succs ∧
+      ∀ s ∈ succs, ∃ τ, a.get s.1 = some τ ∧ subTy s.2 τ = true
+
+theorem Typing.toW {p : Prog} {bs : List Nat} {a : Assign} (h : Typing p bs a) : TypingW p bs a :=
+  ⟨h.zero, fun pc hpc σ hσ => by
+    obtain ⟨o, succs, h1, h2, h3⟩ := h.closed pc hpc σ hσ
+    exact ⟨o, succs, h1, h2, fun s hs => (h3 s hs).2⟩⟩
+
 /-! ### the state invariant -/
 
 /-- the crawl depth of a state -/
